@@ -463,7 +463,10 @@ var mutKinds = []string{"crlf", "unicode-strings", "unicode-comments", "huge-num
 	"blank-lines", "dup-rules", "comment-each-line", "ignore-directives", "long-lines", "cr-only-tail",
 	// parseable-but-not-compilable (gen_invalid.go) and comment placement (gen_comments.go); the latter twice: it is
 	// the one mutation that reaches every bracketed term of the real-world modules
-	"shadow-imports", "dup-heads", "uncompilable-body", "comments-at-boundaries", "comments-at-boundaries"}
+	"shadow-imports", "dup-heads", "uncompilable-body", "comments-at-boundaries", "comments-at-boundaries",
+	// Rego source kept as data / documentation inside the module (gen_quoted.go); the rest of a row moved to the next
+	// row at operators and keywords (gen_breaks.go), twice: it reaches every head and expression of the real-world modules
+	"quote-rego-source", "break-lines", "break-lines"}
 
 func mutate(r *hutil.Rng, kind, t string) string {
 	switch kind {
@@ -568,6 +571,10 @@ func mutate(r *hutil.Rng, kind, t string) string {
 		return mutateUncompilableBody(r, t)
 	case "comments-at-boundaries":
 		return mutateCommentsAtBoundaries(r, t)
+	case "quote-rego-source":
+		return mutateQuoteRegoSource(r, t)
+	case "break-lines":
+		return mutateBreakLines(r, t)
 	}
 	return t
 }
